@@ -59,7 +59,7 @@ def unordered(v):
     if isinstance(v, dict):
         if 'd' in v: return ('d', sorted((json.dumps(k, sort_keys=True), unordered(x)) for k, x in v['d']))
         if 'l' in v: return ('l', [unordered(x) for x in v['l']])
-        return ('o', sorted((k, unordered(x)) for k, x in v.items()))
+        return ('o', sorted((k, (sorted((json.dumps(a), json.dumps(unordered(b), sort_keys=True, default=str)) for a, b in x) if k in ('vk', 'kw', 'named') else unordered(x))) for k, x in v.items()))
     if isinstance(v, list): return [unordered(x) for x in v]
     return v
 
